@@ -578,8 +578,13 @@ def run(chk):
             jobs.append(("law_utf8", [rand_string(rng)]))
         elif k == 3:
             L = rng.choice([0, 1, 2, 5, 20, 21, 50, 300 if not quick else 60])
-            c = rng.randrange(7)
-            if c == 6:
+            c = rng.randrange(8)
+            if c == 7:
+                # integers too close to be told apart as doubles, next to floats whose comparison with them is exact
+                base = rng.choice([(1 << 53) + 1, (1 << 60) + 3, I64_MAX - 300, -(1 << 53) - 5])
+                arr = [base + rng.randint(-3, 3) for _ in range(max(2, L // 2))] + [rng.choice([0.5, -2.25, 1024.0, 3.0e9]) for _ in range(rng.randint(1, 3))]
+                rng.shuffle(arr)
+            elif c == 6:
                 # integers too large / too close to be told apart as doubles
                 base = rng.choice([1 << 53, (1 << 53) + 1, 1 << 60, (1 << 62) + 3, I64_MAX - 300, I64_MIN + 300, -(1 << 53) - 5, 1700000000123456789])
                 arr = [base + rng.randint(-300, 300) if rng.random() < 0.9 else rng.choice([I64_MAX, I64_MIN, 0]) for _ in range(L)]
@@ -601,6 +606,13 @@ def run(chk):
             jobs.append(("round", [x, rng.randint(0, 15)]))
         else:
             jobs.append(("law_chars", [rand_string(rng)]))
+    # results are fresh values: changing what a builtin returned does not change what it returns next time
+    for L in (1, 2, 5, 31, 32, 33, 40, 64, 65, 100, 300):
+        for mut in ("sort(r1);", "push(r1, '!');", "pop(r1);", "r1[0] = '#';", "push(r1, r1[0]); sort(r1);"):
+            txt = "".join(chr(97 + (i * 7 + L) % 26) for i in range(L))
+            jobs.append(("law_fresh_chars", [txt, mut]))
+            jobs.append(("law_fresh_bytes", [txt, mut.replace("'!'", "byte(33)").replace("'#'", "byte(35)")]))
+        jobs.append(("law_fresh_rest", [L]))
 
     cases = []
     specs = []
@@ -617,6 +629,19 @@ def run(chk):
             s = args[0]
             src = "let __o = []; let s = %s; push(__o, join(chars(s))); push(__o, len(chars(s)));" % lit(s)
             specs.append(("law", ("a", (("s", s), ("i", len(s)))), None))
+        elif name == "law_fresh_chars":
+            s, mut = args
+            src = "let __o = []; let s = %s; let r1 = chars(s); %s let s2 = %s; push(__o, join(chars(s2))); push(__o, len(chars(s))); push(__o, join(chars(s)));" % (lit(s), mut, lit(s))
+            specs.append(("law", ("a", (("s", s), ("i", len(s)), ("s", s))), None))
+        elif name == "law_fresh_bytes":
+            s, mut = args
+            src = "let __o = []; let s = %s; let r1 = encode_utf8(s); %s let s2 = %s; push(__o, decode_utf8(encode_utf8(s2))); push(__o, len(encode_utf8(s))); push(__o, decode_utf8(encode_utf8(s)));" % (lit(s), mut, lit(s))
+            specs.append(("law", ("a", (("s", s), ("i", len(s)), ("s", s))), None))
+        elif name == "law_fresh_rest":
+            L = args[0]
+            elems = ", ".join(str(i) for i in range(L))
+            src = "let __o = []; let a = [%s]; let r1 = rest(a); if r1 != null { push(r1, 77); if len(r1) > 1 { r1[0] = 55; } } let r2 = rest(a); push(__o, if r2 == null { 0 - 1 } else { len(r2) }); push(__o, len(a)); push(__o, first(a));" % elems
+            specs.append(("law", ("a", (("i", L - 1), ("i", L), ("i", 0))), None))
         else:
             src = program(name, args)
             exp, after = contract(name, args)
